@@ -158,8 +158,9 @@ def gen_element(rng, harm, kind=None, maxl=None):
     el = {}
     shells = []
     if kind != 'ecponly':
-        maxl = maxl if maxl is not None else (rng.choice([7, 8, 9, 12]) if kind == 'highl' else rng.randrange(0, 4))
-        ls = sorted(set([0] + [rng.randrange(0, maxl + 1) for _ in range(rng.randrange(1, 5))] + [maxl]))
+        maxl = maxl if maxl is not None else (rng.choice([7, 8, 9, 11]) if kind == 'highl' else rng.randrange(0, 4))
+        # momenta contiguous from s upwards, as in every real basis set (positional formats cannot express a gap)
+        ls = list(range(maxl + 1))
         for l in ls:
             if kind == 'pople' and l == 0:
                 shells.append(gen_shell(rng, [0], harm, nprim=rng.randrange(2, 7), ngen=1, zero_pad=0))
